@@ -49,10 +49,12 @@ CLAIMED = {
          'and that are each evaluated at the midpoint of the sub-interval they cover (for every value of the scheme constant), the constant cancels the cubic error term '
          'to 1e-15; forward updates evolve by -u dt/2 and backward updates by +u dt/2 (ring identities). For every chain length, with and without precompute and for '
          'every sequence of 1-site / 2-site sweeps on one environment: each local generator is built from environments that are present and computed from the current '
-         'site tensors, the centre is never evolved outside the chain, no gauge move is refused, the sweep leaves the environment ready for the next one. Ties: '
+         'site tensors, the centre is never evolved outside the chain, no gauge move is refused, the sweep leaves the environment ready for the next one; the same for the '
+         'mixed 12site sweep for EVERY sequence of decisions of env.enlarge_bond (arbitrary oracle; the four operation blocks are translated, the control skeleton is '
+         'checked literally by the translator and compared with real runs given their recorded decisions). Ties: '
          'operation-level traces of real tdvp_ runs replayed through the model (statuses measured by recomputation); (time, length) of every real sweep and TDVP_out vs '
-         'the generated arithmetic in exact rationals. NOT proved: local exponentials (C18), exactness of the splitting, conservation laws, orders of convergence, the '
-         'mixed 12site method -- compared with dense exp(-u t H) psi at maximal bond dimension (real, imaginary, complex u; 1site / 2site / 12site; 2nd / 4th; flags), '
+         'the generated arithmetic in exact rationals. NOT proved: local exponentials (C18), exactness of the splitting, conservation laws, orders of convergence '
+         '-- compared with dense exp(-u t H) psi at maximal bond dimension (real, imaginary, complex u; 1site / 2site / 12site; 2nd / 4th; flags), '
          'norm / energy / charge / canonical form at small bond dimension, and scipy solve_ivp for time-dependent generators (error bound and halving ratio).'),
    design_ref='DESIGN.md section 6 C10',
    note=('Trusted: Coq kernel, no axioms; translators tr_step.py / tr_sweep.py / pyexpr.py; the status semantics of the environment operations is hand-written and tied by '
